@@ -487,13 +487,20 @@ impl World for Multi {
         let mut st = build_state(&case.layout);
         let mut model = Model::from_scopes(case.layout.iter().map(|m| m.iter().map(|(t, v)| (*t, *v as u64)).collect()).collect());
         let cat = catalogue();
-        let mut next = 1_000_000u32;
+        // values written through the references are a function of (tuple index, position) only and
+        // a narrowed case starts from the registry content just before its tuple, so that the
+        // one-tuple replay of a violation is the same execution
+        let mut next = 0u32;
+        let _ = &mut next;
         let shape: Vec<Vec<u8>> = case.layout.iter().map(|m| m.keys().copied().collect()).collect();
         let idxs: Vec<usize> = if case.only.is_empty() { (0..cat.len()).collect() } else { case.only.clone() };
         for ci in idxs {
             let (tuple, f, f_panicking) = cat[ci];
             out.evaluations += 1;
             out.steps += 1;
+            let before: Vec<BTreeMap<u8, u32>> = model.scopes.iter().map(|m| m.iter().map(|(k, v)| (*k, *v as u32)).collect()).collect();
+            let narrowed = || MultiCase { layout: before.clone(), only: vec![ci] };
+            next = 1_000_000 + (ci as u32) * 64;
             let vals: Vec<u32> = tuple.iter().map(|_| { next += 1; next }).collect();
             let mut sorted = tuple.to_vec();
             sorted.sort();
@@ -514,7 +521,7 @@ impl World for Multi {
                         a.sort();
                         a.dedup();
                         if a.len() != addrs.len() {
-                            out.violation = Some((Violation::new("multi-borrow-aliasing", format!("get_multiple_mut {tuple:?}: {} references to {} distinct objects", addrs.len(), a.len())), MultiCase { layout: case.layout.clone(), only: vec![ci] }));
+                            out.violation = Some((Violation::new("multi-borrow-aliasing", format!("get_multiple_mut {tuple:?}: {} references to {} distinct objects", addrs.len(), a.len())), narrowed()));
                             break;
                         }
                         for (t, v) in tuple.iter().zip(&pvals) {
@@ -524,7 +531,7 @@ impl World for Multi {
                     (got, inv) => {
                         out.violation = Some((
                             Violation::new(format!("multi-borrow-panicking-decision arity={} invalid={inv}", tuple.len()), format!("get_multiple_mut {tuple:?} over layout {:?}: {} although the request is {}", case.layout, if got.is_some() { "returned references" } else { "panicked" }, if inv { "invalid (repeated or missing type)" } else { "valid" })),
-                            MultiCase { layout: case.layout.clone(), only: vec![ci] },
+                            narrowed(),
                         ));
                         break;
                     }
@@ -546,11 +553,11 @@ impl World for Multi {
                     a.dedup();
                     let exp_old: Vec<u32> = tuple.iter().map(|t| model.get(*t).unwrap() as u32).collect();
                     if a.len() != addrs.len() {
-                        out.violation = Some((Violation::new("multi-borrow-aliasing", format!("tuple {tuple:?}: {} references to {} distinct objects", addrs.len(), a.len())), MultiCase { layout: case.layout.clone(), only: vec![ci] }));
+                        out.violation = Some((Violation::new("multi-borrow-aliasing", format!("tuple {tuple:?}: {} references to {} distinct objects", addrs.len(), a.len())), narrowed()));
                         break;
                     }
                     if *old != exp_old {
-                        out.violation = Some((Violation::new("multi-borrow-wrong-object", format!("tuple {tuple:?}: a reference does not point at the innermost value of its type (layout {:?})", case.layout)), MultiCase { layout: case.layout.clone(), only: vec![ci] }));
+                        out.violation = Some((Violation::new("multi-borrow-wrong-object", format!("tuple {tuple:?}: a reference does not point at the innermost value of its type (layout {:?})", case.layout)), narrowed()));
                         break;
                     }
                     for (t, v) in tuple.iter().zip(&vals) {
@@ -575,7 +582,7 @@ impl World for Multi {
                                 MultiOutcome::Other(e) => format!("Err({e})"),
                             }),
                         ),
-                        MultiCase { layout: case.layout.clone(), only: vec![ci] },
+                        narrowed(),
                     ));
                     break;
                 }
@@ -585,7 +592,7 @@ impl World for Multi {
             if levels != model.scopes {
                 out.violation = Some((
                     Violation::new("multi-borrow-writes-lost", format!("after tuple {tuple:?}: expected {:?}, registry holds {levels:?}", model.scopes)),
-                    MultiCase { layout: case.layout.clone(), only: vec![ci] },
+                    narrowed(),
                 ));
                 break;
             }
